@@ -173,15 +173,13 @@ func observeSplit(c *fw.Case, entry, text string, req int, refByte byte) *splitO
 			o.repNum = int(f)
 		case "Build-CMPP":
 			var f datacoding.ProtocolDataCoding
-			o.parts, f, o.err = builderFor(c, "CMPP").Protocol(protocol.CMPP).Content(text, refByte).
-				DataCodings([]datacoding.ProtocolDataCoding{datacoding.CMPPDataCoding(req)}).Build(ctx)
+			o.parts, f, o.err = builderFor(c, "CMPP", req).Content(text, refByte).Build(ctx)
 			if cf, ok := f.(datacoding.CMPPDataCoding); ok {
 				o.repNum = int(cf)
 			}
 		case "Build-SMPP":
 			var f datacoding.ProtocolDataCoding
-			o.parts, f, o.err = builderFor(c, "SMPP").Protocol(protocol.SMPP).Content(text, refByte).
-				DataCodings([]datacoding.ProtocolDataCoding{datacoding.SMPPDataCoding(req)}).Build(ctx)
+			o.parts, f, o.err = builderFor(c, "SMPP", req).Content(text, refByte).Build(ctx)
 			if sf, ok := f.(datacoding.SMPPDataCoding); ok {
 				o.repNum = int(sf)
 			}
@@ -203,16 +201,28 @@ func observeSplit(c *fw.Case, entry, text string, req int, refByte byte) *splitO
 
 // reusedBuilders: one long-lived builder per protocol and worker process, used for half of the Build requests
 // (an application that keeps its builder); the other half gets a fresh one.
-var reusedBuilders = map[string]*protocol.BatchDataCodingEncoder{}
+var (
+	reusedBuilders = map[string]*protocol.BatchDataCodingEncoder{}
+	reusedReq      = map[string]int{}
+)
 
-func builderFor(c *fw.Case, proto string) *protocol.BatchDataCodingEncoder {
+// builderFor returns a builder with protocol and candidate set; half of the time the long-lived one, which gets
+// Protocol/DataCodings only when the request's coding differs from its last one — otherwise only Content() is
+// called before Build(), as an application sending many messages through one builder does.
+func builderFor(c *fw.Case, proto string, req int) *protocol.BatchDataCodingEncoder {
+	mk := func() *protocol.BatchDataCodingEncoder {
+		if proto == "CMPP" {
+			return protocol.NewBatchDataCodingEncoder().Protocol(protocol.CMPP).DataCodings([]datacoding.ProtocolDataCoding{datacoding.CMPPDataCoding(req)})
+		}
+		return protocol.NewBatchDataCodingEncoder().Protocol(protocol.SMPP).DataCodings([]datacoding.ProtocolDataCoding{datacoding.SMPPDataCoding(req)})
+	}
 	if c.R.Bool() {
-		return protocol.NewBatchDataCodingEncoder()
+		return mk()
 	}
 	b := reusedBuilders[proto]
-	if b == nil {
-		b = protocol.NewBatchDataCodingEncoder()
-		reusedBuilders[proto] = b
+	if b == nil || reusedReq[proto] != req {
+		b = mk()
+		reusedBuilders[proto], reusedReq[proto] = b, req
 	}
 	return b
 }
